@@ -32,11 +32,15 @@ static void oracle_qltlv(const vcfg *c, const uint8_t *f, size_t n) {
     V_ASSERT(n == 34 + L, "C02: QueryLargeTlvResp length is 34 + payload");
     V_ASSERT(n <= c->mtu, "C08: response fits in the MTU");
 #ifdef V_MEMCPY_RECORD
-    V_ASSERT(g_mc_calls == (L > 0 ? 1u : 0u), "C08: payload produced by one copy, none for an empty payload");
-    if (L > 0) {
+    if (g_mc_calls > 0) {
+        /* payload produced through the port's memcpy: check the copy's arguments (contract: dst[0..n) = src[0..n)) */
+        V_ASSERT(g_mc_calls == 1 && L > 0, "C08: payload produced by one copy, none for an empty payload");
         V_ASSERT(g_mc_dst == (void *)(f + 34), "C08: payload placed right after the length field");
         V_ASSERT(g_mc_src == (const void *)(q_data + q_off), "C08: payload bytes are the property's bytes at the requested offset");
         V_ASSERT(g_mc_n == L, "C08: payload length equals the announced length");
+    } else if (in.j < L) {
+        /* payload produced some other way (e.g. a byte loop): compare the bytes themselves at a universally quantified index */
+        V_ASSERT(f[34 + in.j] == q_data[q_off + in.j], "C08: payload bytes are the property's bytes at the requested offset");
     }
 #else
     if (in.j < L) {
